@@ -487,11 +487,15 @@ Fixpoint sem (n : nat) (g : G) (ctx : env) (p : nat) (a : reg) {struct n} : opti
       | None => None
       end
   | CollectExactly k i =>
+      match k, its_fail (mk_iter i ctx) with
+      | 0, Some e => run (TryMap PFalse FId e Empty) ctx p a       (* a failing try_configure fails even when no item is asked for *)
+      | _, _ =>
       match sdrive run (S k) i ctx (mk_iter i ctx) (Some k) [] [] p a with
       | Some (Some (items, false, p1, e1), a1) => Some (Some (VList (rev (map sitem_val items)), p1, e1), a1)
       | Some (Some (_, true, p1, _), a1) => Some (None, fail_at a1 p1 [pSomethingElse])
       | Some (None, a1) => Some (None, a1)
       | None => None
+      end
       end
   | Foldl x i k =>
       seq (run x ctx p a) (fun va p1 e1 a1 =>
